@@ -1,11 +1,11 @@
 #!/bin/bash
 # usage: tr.sh <refactor-or-seed id|patch> [property ...]   apply, run checks (default all), undo; prints alarm lines
 export GOFLAGS=-mod=mod GOPROXY=off GOSUMDB=off GOTOOLCHAIN=local; unset GOWORK
-P=$1; shift
+P=$1; shift; R=${REPO:-/repo}
 [ -f "$P" ] || { [ -f /verif/refactors/$P/patch.diff ] && P=/verif/refactors/$P/patch.diff || P=/verif/seeded/$P/patch.diff; }
 (cd /verif/checker && go build -o ../bin/pprofcheck .) || exit 2
-git -C /repo apply $P || { echo "PATCH DOES NOT APPLY"; exit 2; }
+git -C $R apply $P || { echo "PATCH DOES NOT APPLY"; exit 2; }
 for q in ${@:-all}; do
-  /verif/bin/pprofcheck -property $q -no-evidence 2>&1 | grep -E "^\s+(VIOLATION|UNDECIDED)|cannot analyse|panic" | cut -c1-${W:-500}
+  /verif/bin/pprofcheck -property $q -no-evidence -repo $R 2>&1 | grep -E "^\s+(VIOLATION|UNDECIDED)|cannot analyse|panic" | cut -c1-${W:-500}
 done
-git -C /repo checkout -- .
+git -C $R checkout -- .
